@@ -99,6 +99,8 @@ typedef struct {
         uint32_t taglen;   /* requested tag length */
         uint32_t aadlen;
         uint32_t ivlen;
+        uint32_t cfail;    /* CUSTOM call-backs: bit 0 cipher reports failure, bit 1 hash reports failure */
+        uint32_t pli;      /* PON: payload length indicator written into the XGEM header */
         uint32_t bitadj;   /* for bit-length modes: number of bits removed from the last byte (0..7) */
         int inplace;
         int placement;     /* GA_* */
@@ -143,6 +145,7 @@ void hx_job_to_slot(const hx_job *j, IMB_JOB *slot);
  * bit2 auxiliary output differs (next_iv, inserted CRC) */
 int hx_job_cmp_out(const hx_job *a, const hx_job *b);
 int hx_tag_defined(const hx_spec *sp);
+uint32_t hx_tag_cmp_len(const hx_spec *sp);
 /* checks on a returned job: bit0 source modified, bit1 dst written beyond len, bit2 tag buffer written
  * beyond taglen, bit3 canary */
 int hx_job_check_bounds(const hx_job *j);
@@ -162,6 +165,7 @@ extern const int hx_nkinds;
 extern long hx_force_len;
 extern int hx_len_long;
 extern int hx_docsis_shape;
+extern int hx_custom_fail_rate;
 
 /* run `sp` alone on the oracle manager for variant v; fills out (caller frees). returns status */
 int hx_run_alone(const hx_variant *v, const hx_spec *sp, hx_job *out);
